@@ -346,6 +346,14 @@ def batch_task(family, texts, stdin_text):
             else:
                 r, out, err = run_exe([os.path.join(d, name)], stdin, to)
                 res = compare_compiled(o0, r, out, err)
+                if res is None and (o0.kind == 'budget' or r == 'timeout'):
+                    # a program that keeps running is compared by the prefix it manages to write within the time limit:
+                    # give the stand-alone executable more time before concluding that it agrees
+                    for to2 in (0.5, 3):
+                        r, out, err = run_exe([os.path.join(d, name)], stdin, to2)
+                        res = compare_compiled(o0, r, out, err)
+                        if res is not None:
+                            break
                 if res is None:
                     raise MachineryError('disagreement only in the batched form: %r level %d' % (texts[k], lv))
         if res is not None:
